@@ -47,6 +47,9 @@ type Knobs struct {
 	NoDevice   map[string]bool `json:"noDevice,omitempty"`   // device never connects before the heal phase
 	CancelLate int             `json:"cancelLate,omitempty"` // steps between handler return and context cancellation
 	Persistent map[string]bool `json:"persistent,omitempty"`
+	// ModelB: these targets are of a second model (other type or other version, same schema) whose plugin rejects
+	// PoisonValueB and accepts PoisonValue: [type, version]
+	ModelB map[string][2]string `json:"modelB,omitempty"`
 	// ValidateCaps: the topo Configurable asks for a capability check before every apply (the device reports the plugin's
 	// models plus one more)
 	ValidateCaps map[string]bool `json:"validateCaps,omitempty"`
